@@ -26,6 +26,7 @@ type stmtT struct {
 	DB    string   `json:"db,omitempty"`  // "" = global
 	Tbl   string   `json:"tbl,omitempty"` // "" = database level
 	Privs []string `json:"privs,omitempty"`
+	Probe int      `json:"probe,omitempty"` // kind "probe": index into probeDefs, run as User in the middle of the history
 }
 
 type probeT struct {
@@ -54,6 +55,7 @@ var userNames = []string{"u1", "u2", "u3"}
 var roleNames = []string{"r1", "r2"}
 var dbNames = []string{"db", "db2"}
 var tblNames = []string{"t", "s"}
+var dbOnlyTblNames = []string{"t", "s", "ma", "mb"} // tables of database db that grants may name
 
 func isRole(n string) bool { return strings.HasPrefix(n, "r") }
 
@@ -373,6 +375,11 @@ var probeDefs = []probeDef{
 		func(k int) string { return fmt.Sprintf("CREATE TABLE db2.d%d (a int primary key)", k) }},
 	{"create-index/db.t", func(int) []need { return []need{{"db", "t", 12}} }, func(k int) string { return fmt.Sprintf("CREATE INDEX i%d ON db.t (b)", k) }, nil},
 	{"create-user/global", func(int) []need { return []need{{"db", "", 25}} }, func(k int) string { return fmt.Sprintf("CREATE USER x%d@localhost", k) }, nil},
+	// multi-target statement: every listed table needs the privilege
+	{"drop-tables/db.ma,db.mb", func(int) []need { return []need{{"db", "ma", 5}, {"db", "mb", 5}} }, func(int) string { return "DROP TABLE db.ma, db.mb" },
+		func(int) string {
+			return "CREATE TABLE IF NOT EXISTS db.ma (a int primary key); CREATE TABLE IF NOT EXISTS db.mb (a int primary key)"
+		}},
 }
 
 func run(c *lib.Ctx, cs caseT) {
@@ -388,7 +395,95 @@ func run(c *lib.Ctx, cs caseT) {
 	rf := newRef()
 	rq := newRef() // root-cause classification only
 	rq.q1 = true
+	cs.Probes = nil
+	type pf struct{ sig, what string }
+	var fails []pf
+	k := 0
+	var sid uint32 = 100
+	nontrivial := 0
+	var items []string
+	before := ""
+	doProbe := func(u string, pi int) {
+		pd := probeDefs[pi]
+		sid++
+		us := sessAs(e, u, "localhost", sid) // a fresh session: its privilege cache starts empty
+		k++
+		if pd.prep != nil {
+			for _, q := range strings.Split(pd.prep(k), "; ") {
+				root.MustExec(q)
+			}
+			before = ""
+		}
+		if before == "" {
+			before = snapshot(root)
+		}
+		q := pd.sql(k)
+		r := us.Query(q)
+		kind := eng.ErrKind(r.Err)
+		allowed := r.Err == nil
+		p := probeT{User: u, Class: pd.class, SQL: q, Allowed: allowed}
+		if r.Err != nil {
+			p.Err = r.Err.Error()
+		}
+		cs.Probes = append(cs.Probes, p)
+		needs := pd.needs(k)
+		want := true
+		for _, n := range needs {
+			ok, _ := rf.has(u, n)
+			want = want && ok
+		}
+		items = append(items, fmt.Sprintf("(IProbe %s %d %s)", lib.CoqStr(u), pi, lib.CoqBool(allowed)))
+		kindOf := strings.SplitN(pd.class, "/", 2)[0]
+		c.Count(fmt.Sprintf("probe/%s/allowed_%v", kindOf, allowed))
+		if allowed {
+			nontrivial++
+		}
+		switch {
+		case r.Panic != "":
+			fails = append(fails, pf{"panic/probe/" + kindOf, "probe panicked: " + q + ": " + r.Panic})
+		case !allowed && kind != "denied":
+			fails = append(fails, pf{"probe-failed-for-another-reason/" + kindOf, fmt.Sprintf("%s as %s: %v", q, u, r.Err)})
+		case allowed && !want:
+			fails = append(fails, pf{"allowed-without-grant/" + kindOf,
+				fmt.Sprintf("%s as %s was allowed although no granted privilege (user or roles, global/database/table) covers it", q, u)})
+		case !allowed && want:
+			// name the root cause from the shape of the failing input: which known defect(s), applied to the
+			// reference, turn "allowed" into "denied" for this probe?
+			udel := unfilteredDeleteElsewhere(q, e.DB)
+			wantQ1 := true
+			for _, n := range needs {
+				ok, _ := rq.has(u, n)
+				wantQ1 = wantQ1 && ok
+			}
+			wantQ2 := want && (!udel || rf.anyOn(u, e.DB))
+			wantQ12 := wantQ1 && (!udel || rq.anyOn(u, e.DB))
+			sig := "denied-despite-grant/" + kindOf
+			switch {
+			case !wantQ2:
+				sig = "denied-despite-grant/unfiltered-delete-on-table-outside-current-database/no-privilege-on-current-database"
+			case !wantQ1:
+				sig = "denied-despite-table-grant/after-database-level-revoke-on-same-database"
+			case !wantQ12:
+				sig = "denied-despite-grant/unfiltered-delete-on-table-outside-current-database/privileges-on-current-database-dropped-by-database-level-revoke"
+			}
+			fails = append(fails, pf{sig, fmt.Sprintf("%s as %s was denied (%v) although the granted privileges cover it", q, u, r.Err)})
+		}
+		if !allowed {
+			after := snapshot(root)
+			if after != before {
+				fails = append(fails, pf{"denied-statement-had-effect/" + kindOf, fmt.Sprintf("%s as %s was denied but changed the databases", q, u)})
+			}
+			before = after
+		} else {
+			before = ""
+		}
+	}
 	for _, s := range cs.History {
+		if s.Kind == "probe" {
+			doProbe(s.User, s.Probe)
+			c.Count("stmt/mid-history-probe")
+			continue
+		}
 		r := root.Query(s.SQL())
 		if r.Panic != "" {
 			id := c.CaseNoModel(cs, "")
@@ -397,101 +492,22 @@ func run(c *lib.Ctx, cs caseT) {
 		}
 		rf.apply(s)
 		rq.apply(s)
+		before = "" // root changed the account tables: take a new snapshot before the next probe
+		items = append(items, "(IStmt "+s.Coq()+")")
 		c.Count("stmt/" + s.Kind)
 	}
-	// probes
-	cs.Probes = nil
-	type pf struct{ sig, what string }
-	var fails []pf
-	k := 0
-	var sid uint32 = 100
-	nontrivial := 0
-	var terms []string
-	before := ""
 	for _, u := range userNames {
-		sid++
-		us := sessAs(e, u, "localhost", sid)
-		for _, pd := range probeDefs {
-			k++
-			if pd.prep != nil {
-				root.MustExec(pd.prep(k))
-				before = ""
-			}
-			if before == "" {
-				before = snapshot(root)
-			}
-			q := pd.sql(k)
-			r := us.Query(q)
-			kind := eng.ErrKind(r.Err)
-			allowed := r.Err == nil
-			p := probeT{User: u, Class: pd.class, SQL: q, Allowed: allowed}
-			if r.Err != nil {
-				p.Err = r.Err.Error()
-			}
-			cs.Probes = append(cs.Probes, p)
-			needs := pd.needs(k)
-			ops := make([]string, len(needs))
-			want := true
-			for i, n := range needs {
-				ops[i] = lib.CoqTuple(lib.CoqStr(n.db), lib.CoqStr(n.tbl), fmt.Sprint(n.priv))
-				ok, _ := rf.has(u, n)
-				want = want && ok
-			}
-			_ = ops
-			terms = append(terms, lib.CoqBool(allowed))
-			c.Count(fmt.Sprintf("probe/%s/allowed_%v", strings.SplitN(pd.class, "/", 2)[0], allowed))
-			if allowed {
-				nontrivial++
-			}
-			switch {
-			case r.Panic != "":
-				fails = append(fails, pf{"panic/probe/" + pd.class, "probe panicked: " + q + ": " + r.Panic})
-			case !allowed && kind != "denied":
-				fails = append(fails, pf{"probe-failed-for-another-reason/" + pd.class, fmt.Sprintf("%s as %s: %v", q, u, r.Err)})
-			case allowed && !want:
-				fails = append(fails, pf{"allowed-without-grant/" + strings.SplitN(pd.class, "/", 2)[0],
-					fmt.Sprintf("%s as %s was allowed although no granted privilege (user or roles, global/database/table) covers it", q, u)})
-			case !allowed && want:
-				// name the root cause from the shape of the failing input: which known defect(s), applied to the
-				// reference, turn "allowed" into "denied" for this probe?
-				kindOf := strings.SplitN(pd.class, "/", 2)[0]
-				udel := unfilteredDeleteElsewhere(q, e.DB)
-				wantQ1 := true
-				for _, n := range needs {
-					ok, _ := rq.has(u, n)
-					wantQ1 = wantQ1 && ok
-				}
-				wantQ2 := want && (!udel || rf.anyOn(u, e.DB))
-				wantQ12 := wantQ1 && (!udel || rq.anyOn(u, e.DB))
-				sig := "denied-despite-grant/" + kindOf
-				switch {
-				case !wantQ2:
-					sig = "denied-despite-grant/unfiltered-delete-on-table-outside-current-database/no-privilege-on-current-database"
-				case !wantQ1:
-					sig = "denied-despite-table-grant/after-database-level-revoke-on-same-database"
-				case !wantQ12:
-					sig = "denied-despite-grant/unfiltered-delete-on-table-outside-current-database/privileges-on-current-database-dropped-by-database-level-revoke"
-				}
-				fails = append(fails, pf{sig, fmt.Sprintf("%s as %s was denied (%v) although the granted privileges cover it", q, u, r.Err)})
-			}
-			if !allowed {
-				after := snapshot(root)
-				if after != before {
-					fails = append(fails, pf{"denied-statement-had-effect/" + pd.class, fmt.Sprintf("%s as %s was denied but changed the databases", q, u)})
-				}
-				before = after
-			} else {
-				before = ""
-			}
+		for pi := range probeDefs {
+			doProbe(u, pi)
 		}
 	}
-	hist := lib.CoqListOf(cs.History, func(s stmtT) string { return s.Coq() })
+	hist := fmt.Sprint(cs.History)
 	key := ""
 	if nontrivial > 0 {
 		key = hist
 	}
 	c.Count(fmt.Sprintf("history_len_%d", len(cs.History)/5*5))
-	id := c.Case(lib.CoqTuple(hist, lib.CoqList(terms)), cs, key)
+	id := c.Case(lib.CoqList(items), cs, key)
 	c.PredChecked()
 	seen := map[string]bool{}
 	for _, f := range fails {
@@ -524,11 +540,155 @@ func genLevel(r *lib.RNG, s *stmtT) []string {
 	default:
 		s.DB = lib.Pick(r, dbNames)
 		s.Tbl = lib.Pick(r, tblNames)
+		if s.DB == "db" {
+			s.Tbl = lib.Pick(r, dbOnlyTblNames)
+		}
 		return tblPrivs
 	}
 }
 
+// randStmt: one random statement over the given principals
+func randStmt(r *lib.RNG, names []string) stmtT {
+	var s stmtT
+	s.User = lib.Pick(r, names)
+	switch k := r.Intn(20); {
+	case k < 8:
+		s.Kind = "grant"
+		s.Privs = subset(r, genLevel(r, &s))
+	case k < 12:
+		s.Kind = "revoke"
+		s.Privs = subset(r, genLevel(r, &s))
+	case k < 13:
+		s.Kind = "grant-all"
+		genLevel(r, &s)
+	case k < 14:
+		s.Kind = "revoke-all"
+		genLevel(r, &s)
+	case k < 17:
+		s.Kind = "grant-role"
+		s.Role = lib.Pick(r, roleNames)
+		s.User = lib.Pick(r, userNames)
+	case k < 18:
+		s.Kind = "revoke-role"
+		s.Role = lib.Pick(r, roleNames)
+		s.User = lib.Pick(r, userNames)
+	case k < 19:
+		s.Kind = "drop"
+	default:
+		if isRole(s.User) {
+			s.Kind = "create-role"
+		} else {
+			s.Kind = "create-user"
+		}
+	}
+	return s
+}
+
+// (table, privilege) pairs that a probe statement exercises
+var probed = []struct {
+	db, tbl, priv string
+}{{"db", "t", "SELECT"}, {"db", "t", "INSERT"}, {"db", "t", "INDEX"}, {"db", "s", "SELECT"}, {"db", "s", "UPDATE"},
+	{"db2", "t", "SELECT"}, {"db2", "t", "DELETE"}, {"db2", "s", "INSERT"}, {"db", "ma", "DROP"}, {"db", "mb", "DROP"}}
+
+// genShared: two principals of one active set (a user and a role, or two roles of the user) hold table-level grants on the
+// SAME table; the user runs statements while both are in place; then the second principal's grant goes away (role revoked,
+// role dropped, privilege revoked from the role, REVOKE ALL on the table). The final probes show whether anything stuck.
+func genShared(r *lib.RNG) caseT {
+	var cs caseT
+	u := lib.Pick(r, userNames)
+	first, second := u, "r1"
+	cs.History = append(cs.History, stmtT{Kind: "create-user", User: u}, stmtT{Kind: "create-role", User: "r1"})
+	if r.Chance(1, 3) {
+		first, second = "r1", "r2"
+		cs.History = append(cs.History, stmtT{Kind: "create-role", User: "r2"})
+	}
+	if r.Chance(1, 2) {
+		other := lib.Pick(r, userNames)
+		if other != u {
+			cs.History = append(cs.History, stmtT{Kind: "create-user", User: other})
+		}
+	}
+	tp := lib.Pick(r, probed[:8])
+	a := lib.Pick(r, tblPrivs)
+	for a == tp.priv {
+		a = lib.Pick(r, tblPrivs)
+	}
+	grants := []stmtT{{Kind: "grant", User: first, DB: tp.db, Tbl: tp.tbl, Privs: []string{a}},
+		{Kind: "grant", User: second, DB: tp.db, Tbl: tp.tbl, Privs: []string{tp.priv}}}
+	if r.Bool() {
+		grants[0], grants[1] = grants[1], grants[0]
+	}
+	cs.History = append(cs.History, grants...)
+	for _, ro := range []string{first, second} {
+		if ro != u {
+			cs.History = append(cs.History, stmtT{Kind: "grant-role", User: u, Role: ro})
+		}
+	}
+	names := append(append([]string{}, userNames...), roleNames...)
+	for i := r.Intn(2); i > 0; i-- {
+		cs.History = append(cs.History, randStmt(r, names))
+	}
+	for i := r.Range(1, 3); i > 0; i-- {
+		cs.History = append(cs.History, stmtT{Kind: "probe", User: u, Probe: r.Intn(len(probeDefs))})
+	}
+	switch r.Intn(5) {
+	case 0:
+		cs.History = append(cs.History, stmtT{Kind: "revoke-role", User: u, Role: second})
+	case 1:
+		cs.History = append(cs.History, stmtT{Kind: "drop", User: second})
+	case 2:
+		cs.History = append(cs.History, stmtT{Kind: "revoke", User: second, DB: tp.db, Tbl: tp.tbl, Privs: []string{tp.priv}})
+	case 3:
+		cs.History = append(cs.History, stmtT{Kind: "revoke-all", User: second, DB: tp.db, Tbl: tp.tbl})
+	default:
+		cs.History = append(cs.History, stmtT{Kind: "revoke-role", User: u, Role: second}, stmtT{Kind: "drop", User: second})
+	}
+	if r.Chance(1, 3) {
+		cs.History = append(cs.History, stmtT{Kind: "probe", User: u, Probe: r.Intn(len(probeDefs))}, randStmt(r, names))
+	}
+	return cs
+}
+
+// genMultiDrop: privileges on the two tables of the multi-target DROP TABLE probe, spread unevenly
+func genMultiDrop(r *lib.RNG) caseT {
+	var cs caseT
+	u := lib.Pick(r, userNames)
+	cs.History = append(cs.History, stmtT{Kind: "create-user", User: u})
+	holder := u
+	if r.Chance(1, 3) {
+		holder = "r1"
+		cs.History = append(cs.History, stmtT{Kind: "create-role", User: "r1"}, stmtT{Kind: "grant-role", User: u, Role: "r1"})
+	}
+	other := lib.Pick(r, []string{"SELECT", "INSERT", "ALTER", "INDEX"})
+	switch r.Intn(6) {
+	case 0, 1: // DROP only on the last listed table
+		cs.History = append(cs.History, stmtT{Kind: "grant", User: holder, DB: "db", Tbl: "mb", Privs: []string{"DROP"}},
+			stmtT{Kind: "grant", User: holder, DB: "db", Tbl: "ma", Privs: []string{other}})
+	case 2: // only on the first
+		cs.History = append(cs.History, stmtT{Kind: "grant", User: holder, DB: "db", Tbl: "ma", Privs: []string{"DROP"}},
+			stmtT{Kind: "grant", User: holder, DB: "db", Tbl: "mb", Privs: []string{other}})
+	case 3: // both
+		cs.History = append(cs.History, stmtT{Kind: "grant", User: holder, DB: "db", Tbl: "ma", Privs: []string{"DROP"}},
+			stmtT{Kind: "grant", User: holder, DB: "db", Tbl: "mb", Privs: []string{"DROP", other}})
+	case 4: // database level
+		cs.History = append(cs.History, stmtT{Kind: "grant", User: holder, DB: "db", Privs: []string{"DROP"}})
+	default: // last only, nothing on the first
+		cs.History = append(cs.History, stmtT{Kind: "grant", User: holder, DB: "db", Tbl: "mb", Privs: []string{"DROP"}})
+	}
+	names := append(append([]string{}, userNames...), roleNames...)
+	for i := r.Intn(3); i > 0; i-- {
+		cs.History = append(cs.History, randStmt(r, names))
+	}
+	return cs
+}
+
 func gen(r *lib.RNG) caseT {
+	switch r.Intn(8) {
+	case 0, 1:
+		return genShared(r)
+	case 2:
+		return genMultiDrop(r)
+	}
 	var cs caseT
 	// most accounts exist from the start
 	for _, u := range userNames {
@@ -544,39 +704,11 @@ func gen(r *lib.RNG) caseT {
 	names := append(append([]string{}, userNames...), roleNames...)
 	n := r.Range(1, 14)
 	for i := 0; i < n; i++ {
-		var s stmtT
-		s.User = lib.Pick(r, names)
-		switch k := r.Intn(20); {
-		case k < 8:
-			s.Kind = "grant"
-			s.Privs = subset(r, genLevel(r, &s))
-		case k < 12:
-			s.Kind = "revoke"
-			s.Privs = subset(r, genLevel(r, &s))
-		case k < 13:
-			s.Kind = "grant-all"
-			genLevel(r, &s)
-		case k < 14:
-			s.Kind = "revoke-all"
-			genLevel(r, &s)
-		case k < 17:
-			s.Kind = "grant-role"
-			s.Role = lib.Pick(r, roleNames)
-			s.User = lib.Pick(r, userNames)
-		case k < 18:
-			s.Kind = "revoke-role"
-			s.Role = lib.Pick(r, roleNames)
-			s.User = lib.Pick(r, userNames)
-		case k < 19:
-			s.Kind = "drop"
-		default:
-			if isRole(s.User) {
-				s.Kind = "create-role"
-			} else {
-				s.Kind = "create-user"
-			}
+		if r.Chance(1, 8) {
+			cs.History = append(cs.History, stmtT{Kind: "probe", User: lib.Pick(r, userNames), Probe: r.Intn(len(probeDefs))})
+			continue
 		}
-		cs.History = append(cs.History, s)
+		cs.History = append(cs.History, randStmt(r, names))
 	}
 	return cs
 }
@@ -586,9 +718,13 @@ func main() {
 		c.Header = "From Coq Require Import List NArith.\nImport ListNotations.\nFrom GMS Require Import Sys.Privs Corr.C39.\nOpen Scope N_scope."
 		c.CaseType = "C39.case"
 		c.MismatchFn = "C39.mismatches"
-		c.SetRule("histories of 1-14 statements after creating most of 3 users and 2 roles: GRANT / REVOKE of 1-3 privileges at " +
-			"global, database (db, db2) or table (t, s) level, GRANT ALL / REVOKE ALL at a level, GRANT role / REVOKE role, DROP and " +
-			"re-CREATE, run by root; then 12 probe statements (select, insert, update, delete, create table, drop table, create " +
+		c.SetRule("5/8 of the cases: histories of 1-14 statements after creating most of 3 users and 2 roles (1/8 of the steps is a probe " +
+			"statement run as a user in the middle of the history); 2/8: two principals of one active set (user + role, or two roles) " +
+			"with table-level grants on the same table, statements run by the user while both are in place, then the second grant goes " +
+			"away (revoke role / drop role / revoke / revoke all); 1/8: DROP privileges spread unevenly over the two tables of a " +
+			"multi-target DROP TABLE. Statements: GRANT / REVOKE of 1-3 privileges at " +
+			"global, database (db, db2) or table (t, s, ma, mb) level, GRANT ALL / REVOKE ALL at a level, GRANT role / REVOKE role, DROP and " +
+			"re-CREATE, run by root; then 13 probe statements (select, insert, update, delete, create table, drop table, create " +
 			"index, create user on different objects) as each of the 3 users. Non-trivial = at least one probe allowed; distinct = " +
 			"distinct histories.")
 		if c.ReplayFile != "" {
@@ -610,6 +746,16 @@ func main() {
 				{Kind: "revoke", User: "u3", DB: "db", Privs: []string{"SELECT"}}}},
 			// the unfiltered-DELETE defect alone
 			{History: []stmtT{cu("u2"), {Kind: "grant", User: "u2", DB: "db2", Privs: []string{"SELECT", "DELETE"}}}},
+			// a user and a role with table-level grants on the same table; the user runs statements; the role is revoked
+			{History: []stmtT{cu("u1"), {Kind: "create-role", User: "r1"}, {Kind: "grant", User: "u1", DB: "db", Tbl: "t", Privs: []string{"SELECT"}},
+				{Kind: "grant", User: "r1", DB: "db", Tbl: "t", Privs: []string{"INSERT"}}, {Kind: "grant-role", User: "u1", Role: "r1"},
+				{Kind: "probe", User: "u1", Probe: 0}, {Kind: "probe", User: "u1", Probe: 3}, {Kind: "revoke-role", User: "u1", Role: "r1"}}},
+			{History: []stmtT{cu("u2"), {Kind: "create-role", User: "r1"}, {Kind: "create-role", User: "r2"}, {Kind: "grant", User: "r1", DB: "db2", Tbl: "t", Privs: []string{"SELECT"}},
+				{Kind: "grant", User: "r2", DB: "db2", Tbl: "t", Privs: []string{"DELETE"}}, {Kind: "grant-role", User: "u2", Role: "r1"}, {Kind: "grant-role", User: "u2", Role: "r2"},
+				{Kind: "probe", User: "u2", Probe: 2}, {Kind: "drop", User: "r2"}}},
+			// DROP TABLE db.ma, db.mb with DROP on the last table only
+			{History: []stmtT{cu("u1"), {Kind: "grant", User: "u1", DB: "db", Tbl: "mb", Privs: []string{"DROP"}}, {Kind: "grant", User: "u1", DB: "db", Tbl: "ma", Privs: []string{"SELECT"}}}},
+			{History: []stmtT{cu("u1"), {Kind: "grant", User: "u1", DB: "db", Tbl: "ma", Privs: []string{"DROP"}}, {Kind: "grant", User: "u1", DB: "db", Tbl: "mb", Privs: []string{"DROP"}}}},
 			// ordinary behaviour
 			{History: []stmtT{cu("u1"), {Kind: "grant", User: "u1", DB: "db", Tbl: "t", Privs: []string{"SELECT"}}}},
 			{History: []stmtT{cu("u1"), cu("u2"), {Kind: "create-role", User: "r1"}, {Kind: "grant", User: "r1", DB: "db2", Privs: []string{"SELECT", "DELETE"}},
